@@ -15,6 +15,7 @@ from .ops import Exc
 specmod.install_pure_ops(Executor)
 
 PREPARE = os.environ.get('PYVC_PREPARE', '1') == '1'
+SLICE = os.environ.get('PYVC_SLICE', '1') == '1'
 Z3_TIMEOUT_MS = int(os.environ.get('PYVC_Z3_TIMEOUT_MS', '10000'))
 ALT_TIMEOUT_S = int(os.environ.get('PYVC_ALT_TIMEOUT_S', '40'))
 
@@ -244,6 +245,27 @@ def discharge(ex, o, use_alt=True, both=False, timeout_ms=None, extra=()):
             continue
         reason = sol.reason_unknown()
     backend = 'z3-5.1'
+    if status == 'unknown' and sym.BOUND is None and SLICE:
+        # relevance slicing: all ground hypotheses, plus only the quantified ones that share symbols with
+        # the goal (transitively, in rounds).  Any subset of the hypotheses is sound for `unsat`.
+        hyps = list(o.pc) + list(extra)
+        for keep in relevance_slices(hyps, o.goal):
+            sol = z3.Solver()
+            sol.set('timeout', max(1500, budget // 4))
+            sel = [hyps[i] for i in keep]
+            if PREPARE:
+                q = prep.prepare_query(sel, z3.Not(o.goal))
+            else:
+                q = sel + [z3.Not(o.goal)]
+            sol.add(*ex.axioms(used_functions(sel + [o.goal])))
+            if 'lsum' in used:
+                sol.add(*calls.lsum_axioms())
+            sol.add(*q)
+            if sol.check() == z3.unsat:
+                status, reason = 'proved', ''
+                backend = f'z3-5.1 (relevance slice: {sum(1 for i in keep if execu._has_quantifier(hyps[i]))} of ' \
+                          f'{sum(1 for h in hyps if execu._has_quantifier(h))} quantified hypotheses)'
+                break
     if status == 'unknown' or both:
         if use_alt:
             smt2 = sol.to_smt2()
@@ -256,6 +278,68 @@ def discharge(ex, o, use_alt=True, both=False, timeout_ms=None, extra=()):
             elif both and alt[0] == status:
                 backend += '+' + alt[1]
     return status, time.time() - t0, backend, model, reason
+
+
+def _symbols(t, cache):
+    k = t.get_id()
+    r = cache.get(k)
+    if r is not None:
+        return r
+    out = set()
+    stack, seen = [t], set()
+    while stack:
+        u = stack.pop()
+        i = u.get_id()
+        if i in seen:
+            continue
+        seen.add(i)
+        if z3.is_quantifier(u):
+            stack.append(u.body())
+        elif z3.is_app(u):
+            d = u.decl()
+            if d.kind() == z3.Z3_OP_UNINTERPRETED:
+                n = d.name()
+                if not n.startswith(('q!', 'q')) or '!' in n:
+                    out.add(n)
+            stack.extend(u.children())
+    cache[k] = out
+    return out
+
+
+COMMON = ('None', 'cls_of', 'self')
+
+
+def relevance_slices(hyps, goal):
+    """Yield index lists: every ground hypothesis + growing sets of quantified hypotheses ordered by
+    symbol overlap with the goal (MePo-style rounds)."""
+    cache = {}
+    ground = [i for i, h in enumerate(hyps) if not execu._has_quantifier(h)]
+    quant = [i for i, h in enumerate(hyps) if execu._has_quantifier(h)]
+    if len(quant) <= 3:
+        return
+    syms = {i: {x for x in _symbols(hyps[i], cache) if x not in COMMON} for i in quant}
+    rel = {x for x in _symbols(goal, cache) if x not in COMMON}
+    # ground equalities connect symbols (e.g. a let-bound constant and the heap term it stands for)
+    chosen, seen_sets = [], []
+    remaining = list(quant)
+    for rnd in range(4):
+        scored = []
+        for i in remaining:
+            sh = len(syms[i] & rel)
+            if sh:
+                scored.append((sh / (len(syms[i]) + 1.0), i))
+        scored.sort(reverse=True)
+        take = [i for _, i in scored[:max(3, len(quant) // 4)]]
+        if not take:
+            break
+        chosen += take
+        remaining = [i for i in remaining if i not in take]
+        for i in take:
+            rel |= syms[i]
+        key = tuple(sorted(chosen))
+        if key not in seen_sets and len(chosen) < len(quant):
+            seen_sets.append(key)
+            yield sorted(ground + chosen)
 
 
 def run_alt(smt2):
@@ -320,17 +404,25 @@ def run_task(table, specs, contract, cls, both=False):
             return res
         open_ = []
         for o in ex.obligs:
-            status, dt, backend, model, reason = discharge(ex, o, both=both)
+            status, dt, backend, model, reason = discharge(ex, o, both=both, use_alt=both)
             r = Result(o.name, status, dt, backend, path=o.path, kind=o.kind, clause=o.info.get('clause', ''),
                        reason=reason, props=o.info.get('props', []), fn=meta['fn'])
             if status == 'refuted':
                 r.model = model_summary(ex, o, model)
                 r.replay = build_replay(ex, o, model, contract, cls)
             if status == 'unknown':
-                open_.append(r)
+                open_.append((r, o))
             res['results'].append(r)
         if open_:
-            refute_bounded(table, specs, contract, cls, open_)
+            # first look for a genuine counter-model on small structures (fast, quantifier free) ...
+            refute_bounded(table, specs, contract, cls, [r for r, o in open_])
+            # ... then give the still open ones to the second-opinion back ends with a longer budget
+            for r, o in open_:
+                if r.status == 'unknown' and not both:
+                    status, dt, backend, model, reason = discharge(ex, o, use_alt=True, timeout_ms=3 * Z3_TIMEOUT_MS)
+                    r.seconds += dt
+                    if status == 'proved':
+                        r.status, r.backend, r.reason = status, backend, ''
         res['results'] = [r.as_dict() for r in res['results']]
     except Unsupported as e:
         res['undecided'] = str(e)
@@ -347,16 +439,26 @@ def refute_bounded(table, specs, contract, cls, open_results):
     """Counterexample search for obligations the prover left open: regenerate the same obligations
     with every int-range quantifier expanded over 0..K-1 (exact for structures of size <= K) and ask
     for a model.  sat -> refuted with a genuine counter-model; unsat -> stays undecided."""
-    want = {(r.name, tuple(r.path)): r for r in open_results}
+    def lookup(o):
+        # the bounded run prunes more precisely, so its branch-label sequence is a subsequence of the
+        # label sequence of the same path in the proof run
+        for r in open_results:
+            if r.name != o.name or getattr(r, '_bounded_done', False):
+                continue
+            it = iter(r.path)
+            if all(any(lbl == x for x in it) for lbl in o.path):
+                return r
+        return None
     old_bound, old_side = sym.BOUND, sym.SIDE
     sym.BOUND, sym.SIDE = REFUTE_BOUND, []
     try:
         ex, meta = gen_obligations(table, specs, contract, cls)
         side = list(sym.SIDE)
         for o in ex.obligs:
-            r = want.get((o.name, tuple(o.path)))
+            r = lookup(o)
             if r is None:
                 continue
+            r._bounded_done = True
             status, dt, backend, model, reason = discharge(ex, o, use_alt=False, timeout_ms=30000, extra=side)
             r.seconds += dt
             if status == 'refuted':
